@@ -2533,35 +2533,37 @@ func genGlobalVarDecl(nodes []*node, sc *scope) (*node, error) {
 		deps[n] = getVarDependencies(n, sc)
 	}
 
+	// As per the Go specification, repeatedly select the earliest variable in
+	// declaration order which is ready for initialization.
 	inited := map[*node]bool{}
-	revisit := []*node{}
 	for {
+		var next, blocked *node
 		for _, n := range nodes {
+			if inited[n] {
+				continue
+			}
 			canInit := true
 			for _, d := range deps[n] {
 				if !inited[d] {
 					canInit = false
 				}
 			}
-			if !canInit {
-				revisit = append(revisit, n)
-				continue
+			if canInit {
+				next = n
+				break
 			}
-
-			varNode.child = append(varNode.child, n)
-			inited[n] = true
+			if blocked == nil {
+				blocked = n
+			}
 		}
-
-		if len(revisit) == 0 || equalNodes(nodes, revisit) {
+		if next == nil {
+			if blocked != nil {
+				return nil, blocked.cfgErrorf("variable definition loop")
+			}
 			break
 		}
-
-		nodes = revisit
-		revisit = []*node{}
-	}
-
-	if len(revisit) > 0 {
-		return nil, revisit[0].cfgErrorf("variable definition loop")
+		varNode.child = append(varNode.child, next)
+		inited[next] = true
 	}
 	wireChild(varNode)
 	return varNode, nil
